@@ -382,6 +382,9 @@ pub fn seeds_for(target: &str) -> Vec<Seed> {
             add("index-16-4", archive_index_small(16, 4, 40));
             add("index-16-4-2chunks", archive_index_small(16, 4, 200));
             add("index-9-5", archive_index_small(9, 5, 30));
+            add("index-8-4", archive_index_small(8, 4, 30));
+            add("index-4-4", archive_index_small(4, 4, 20));
+            add("index-1-4", archive_index_small(1, 4, 5));
             add("index-16-6", archive_index_small(16, 6, 30));
             v.extend(fixtures("archive", |n| n.ends_with(".index")));
         }
